@@ -443,7 +443,7 @@ Proof.
   destruct (Z_lt_le_dec (zlen xs) c1) as [Hbig|Hle].
   { rewrite lremnum_list_err in Hag |- * by exact Hbig.
     destruct g as [n e]. cbn [agrees fst snd] in Hag. destruct Hag as [Hn He]. subst n.
-    destruct e as [|nm|msg]; [contradiction| |]; cbn [err_is_nil negb fst snd];
+    destruct e; [contradiction|..]; cbn [err_is_nil negb fst snd];
       (eexists; split; [reflexivity|]; cbn; split; [reflexivity|discriminate]). }
   assert (Hnum : exists need, lremnum_list xs c1 v = LOk need /\ 0 <= need <= zlen xs /\
                    need = if c1 =? 0 then Z.of_nat (occ v xs)
